@@ -642,6 +642,28 @@ fn gen_case(seed: u64, idx: u64) -> Case {
     }
     // decoder-specific extras
     match decoder {
+        9 | 10 if choice % 4 == 0 => {
+            // authenticator data with an attested section whose declared credential id length is rewritten to a
+            // boundary of the two-byte field (offset 53), the rest of the input of every size around the fixed part
+            let mut v = c13::gen_authdata(rng_mut(&mut rng), true).to_vec();
+            let actual = u16::from_be_bytes([v[53], v[54]]);
+            let declared: u16 = match rng.below(6) {
+                0 => *rng.pick(&[0u16, 1, 0x7fff, 0x8000, 0xfffe, 0xffff]),
+                1 => actual.wrapping_add(1),
+                2 => actual.wrapping_sub(1),
+                3 => 0xffff - rng.below(40) as u16,
+                4 => (v.len() as u16).wrapping_sub(rng.below(60) as u16),
+                _ => rng.below(65_536) as u16,
+            };
+            v[53..55].copy_from_slice(&declared.to_be_bytes());
+            match rng.below(4) {
+                0 => v.truncate(55 + rng.below(40)),
+                1 => v.extend(rng.bytes(rng.clone().range(0, 70_000))),
+                _ => {}
+            }
+            let input = if decoder == 9 { oracle::cbor_ser(&Cbor::Bytes(v)) } else { v };
+            return Case { decoder, mutation: format!("authdata-credential-id-length-rewrite({declared:#06x}, actual {actual:#06x})"), input, aux };
+        }
         19 if choice % 5 == 0 && input.len() >= 7 => {
             // rewrite the declared data length of the U2F frame
             let v: u32 = *rng.pick(&[0u32, 1, 63, 64, 65, 0xffff, 0x00ff_ffff, 0xffff_ffff]);
